@@ -1102,6 +1102,29 @@ ares_status_t ares_dns_write_buf(const ares_dns_record_t *dnsrec,
 
   orig_len = ares_buf_len(buf);
 
+  /* Name compression pointers are offsets from the first octet of the DNS
+   * message, and ares_dns_name_write() derives them from the length of the
+   * buffer it is appending to.  If the destination already holds data (the
+   * TCP length prefix, previously queued messages) the message must therefore
+   * be composed in a buffer of its own and the result appended. */
+  if (orig_len != 0) {
+    ares_buf_t          *msg = ares_buf_create();
+    const unsigned char *data;
+    size_t               data_len = 0;
+
+    if (msg == NULL) {
+      return ARES_ENOMEM; /* LCOV_EXCL_LINE: OutOfMemory */
+    }
+
+    status = ares_dns_write_buf(dnsrec, msg);
+    if (status == ARES_SUCCESS) {
+      data   = ares_buf_peek(msg, &data_len);
+      status = ares_buf_append(buf, data, data_len);
+    }
+    ares_buf_destroy(msg);
+    return status;
+  }
+
   status = ares_dns_write_header(dnsrec, buf);
   if (status != ARES_SUCCESS) {
     goto done;
